@@ -263,6 +263,17 @@ CHECKS += [
          technique="symbolic differentiation of executed gate matrices; z3 QF_NRA proofs that a frequency annihilator vanishes identically"),
 ]
 
+CHECKS += [
+    dict(property_id="C56", category="other", engine="E3 rev + z3",
+         text="Partial (classical reversible rules): for SemiAdder, Incrementer, IntegerComparator, TemporaryAND, QubitSum, QubitCarry, OutSquare, SignedOutSquare, "
+              "SignedOutMultiplier, OutMultiplier and Adder (classical rules) at register sizes up to 8 bits (thorough: up to 32) EVERY registered decomposition rule "
+              "that expands to the classical alphabet is run on symbolic bits; z3 proves for ALL basis inputs of the documented domain at once the documented function "
+              "(bit-vector arithmetic), unchanged inputs, work wires restored, and every TemporaryAND / un-compute precondition. Category 'other' because of the recorded "
+              "known finding F16 (negative zero of SignedOutMultiplier).",
+         note="Trusted base: z3 (QF_BV), the vf.rev translator (validated against qp.matrix on instances with <= 7 wires; every sat model is replayed on default.qubit). Outside: QFT/phase based rules (Adder/PhaseAdder/OutAdder/Multiplier/OutMultiplier QFT rules, ModExp, OutPoly), non-power-of-two moduli.",
+         technique="translation of the real decomposition rules to z3 Boolean/bit-vector terms; one validity query per claim covering all basis inputs"),
+]
+
 _NOT_BUILT = "claimed in DESIGN.md §4 but its solver-based check is not built yet in this tree"
 NOT_APPLICABLE_REASONS = {
     "C04": "equality/hash: Python hash() of concrete payloads and tolerance-based allclose relations; no exact relation a solver can decide",
